@@ -263,7 +263,7 @@ def _typed(sig, v):
 def bounded(tier, seed):
     rnd = random.Random(seed * 811 + 29)
     n = 0
-    for s in range(2500 if tier == 'thorough' else 50):
+    for s in range(12000 if tier == 'thorough' else 50):
         n += 1
         f = history(rnd, 30)
         if f:
